@@ -311,11 +311,16 @@ func (im *Impl) Exec(line string) (out string) {
 	case "close":
 		return res(im.S.Close())
 	case "open":
-		if im.rep() != nil {
+		// the real guard decides, also when a replica is already attached (open, dirty or rebuilding):
+		// an accepted second Open replaces the instance and resets its mode
+		before := im.rep()
+		if before == nil {
+			im.S.SetPreload(w[1] == "p")
+		}
+		err := im.S.Open()
+		if before != nil && err != nil && im.rep() == before {
 			return "refused"
 		}
-		im.S.SetPreload(w[1] == "p")
-		err := im.S.Open()
 		im.afterNew()
 		return res(err)
 	case "resize":
